@@ -206,3 +206,31 @@ def write_evidence(prop, tier, seed, agg, wall_s, rule, extra=None, assumptions=
 
 def real_now():
     return procs.real_time()
+
+
+def run_process_group(cmd, timeout, env_=None, cwd=None):
+    """Run a real subprocess in its own session and ALWAYS kill the whole process group afterwards,
+    so that worker processes a (possibly broken) tree leaves behind cannot outlive the check.
+    Returns (returncode or None on timeout, stdout, stderr)."""
+    import signal
+    import subprocess
+    p = subprocess.Popen(cmd, stdout=subprocess.PIPE, stderr=subprocess.PIPE, text=True, env=env_, cwd=cwd,
+                         start_new_session=True)
+    try:
+        out, err = p.communicate(timeout=timeout)
+        rc = p.returncode
+    except subprocess.TimeoutExpired:
+        rc = None
+        out, err = "", "timeout after %s s" % timeout
+    finally:
+        try:
+            os.killpg(p.pid, signal.SIGKILL)
+        except (ProcessLookupError, PermissionError):
+            pass
+        try:
+            o2, e2 = p.communicate(timeout=10)
+            if rc is None:
+                out, err = o2 or out, (e2 or "") + err
+        except Exception:
+            pass
+    return rc, out, err
